@@ -1047,7 +1047,7 @@ theorem Packet.len_of_fits (p : Packet) (cb : UInt8) (len : PanicOr Nat) (body :
     · exact hn
     · simp [hn] at ht
 
-theorem blockDecode_eq_decodeBody (debug : Bool) (typ : UInt8) (d : Bool) (q : UInt8) (r : Bool)
+theorem blockDecode_eq_decodeBody_rt (debug : Bool) (typ : UInt8) (d : Bool) (q : UInt8) (r : Bool)
     (n : Nat) (h : typ ∈ [1, 2, 3, 4, 5, 6, 7, 8, 9, 10, 11, 14, 15]) :
     blockDecode debug ⟨typ, d, q, r, n⟩ = decodeBody debug ⟨typ, d, q, r, n⟩ := by
   simp only [List.mem_cons, List.not_mem_nil, or_false] at h
